@@ -794,8 +794,11 @@ def n7(e: Engine, rep: Report, rule: str):
 
 
 # ------------------------------------------------ N4: catch-all translation
-def _transient_by_construction(e: Engine, g, fx, n: Node, expr) -> bool:
+def _transient_by_construction(e: Engine, g, fx, n: Node, expr,
+                               depth: int = 0) -> bool:
     """Is the Reply denoted by `expr` (evaluated at node n) provably 4xx?"""
+    if depth > 6:
+        return False
     if isinstance(expr, ast.Call):
         f = expr.func
         # Reply('4xx', ...)
@@ -821,7 +824,8 @@ def _transient_by_construction(e: Engine, g, fx, n: Node, expr) -> bool:
     defs = [s for s in g.of_kind('stmt') if isinstance(s.ast, ast.Assign)
             and path_of(s.ast.targets[0], s.frame) == p]
     return bool(defs) and all(
-        _transient_by_construction(e, g, fx, d, d.ast.value) for d in defs)
+        _transient_by_construction(e, g, fx, d, d.ast.value, depth + 1)
+        for d in defs)
 
 
 # c-ares result codes that are an authoritative "there is no such record";
